@@ -139,7 +139,7 @@ def exampleEnv : LatEnv :=
 
 example : EnvOK exampleEnv 5 9 ∧ Covered exampleEnv := by
   refine ⟨⟨?_, ?_, ?_, by decide, by decide, by decide⟩, ?_⟩
-  · intro sw c hc
+  · intro sw _ c hc
     simp only [exampleEnv] at hc ⊢
     split at hc
     · subst_vars; simp at hc; rcases hc with rfl | rfl <;> simp
@@ -149,7 +149,7 @@ example : EnvOK exampleEnv 5 9 ∧ Covered exampleEnv := by
         · subst_vars; simp at hc; subst hc; simp
         · cases hc
   · intro r l; simp only [exampleEnv]; split <;> omega
-  · intro sw c hc
+  · intro sw _ c hc
     simp only [exampleEnv] at hc
     split at hc
     · simp at hc; rcases hc with rfl | rfl <;> simp
